@@ -182,6 +182,87 @@ def scenario_range(T, key, pool, init, body, sid):
     return "\n".join(L)
 
 
+def scenario_range_blind(T, key, pool, init, body, form, sid):
+    """a range that binds no variable (form "none": `for range m`, "blank": `for _, _ = range m`, "blankkey": `for _ = range m`);
+    the body is a list of operations per iteration number"""
+    kt = go_type(T, key)
+    L = ["func scen%d() {" % sid,
+         "\tpool := []%s{%s}" % (kt, ", ".join(go_val(T, key, v) for v in pool)),
+         "\tidx := func(k %s) int {" % kt,
+         "\t\tfor j := range pool {", "\t\t\tif pool[j] == k {", "\t\t\t\treturn j", "\t\t\t}", "\t\t}", "\t\treturn -1", "\t}",
+         "\tvar kv %s" % kt,
+         "\t_ = kv",
+         "\tm := map[%s]int{}" % kt]
+    for k, v in init:
+        L.append("\tkv = pool[%d]" % k)
+        L.append("\tm[kv] = %d" % v)
+    L.append("\tn := 0")
+    L.append({"none": "\tfor range m {", "blank": "\tfor _, _ = range m {", "blankkey": "\tfor _ = range m {"}[form])
+    L.append('\t\tprintln("R", %d, "iter", n, len(m))' % sid)
+    L.append("\t\tswitch n {")
+    for j, ops in enumerate(body):
+        L.append("\t\tcase %d:" % j)
+        for op in ops:
+            if op[0] == "set":
+                L.append("\t\t\tkv = pool[%d]" % op[1])
+                L.append("\t\t\tm[kv] = %d" % op[2])
+            else:
+                L.append("\t\t\tdelete(m, pool[%d])" % op[1])
+    L.append("\t\t}")
+    L.append("\t\tn++")
+    L.append("\t}")
+    L.append('\tfor k, v := range m {')
+    L.append('\t\tprintln("R", %d, "final", idx(k), v)' % sid)
+    L.append("\t}")
+    L.append('\tprintln("R", %d, "len", len(m))' % sid)
+    L.append("}")
+    return "\n".join(L)
+
+
+def blind_law(T, key, s, lines):
+    """range laws for a loop that binds no variable, on a trace of (iteration number, len(m) at its start)"""
+    am = G.AbsMap(T, key)
+    for k, v in s["init"]:
+        am.apply(["set", s["pool"][k], v])
+    start = [k for k, _ in am.e]
+    size0 = len(am.e)
+    deleted, created = [], 0
+    n = 0
+    finals, ln = [], None
+    for t in lines:
+        if t[2] == "iter":
+            if int(t[3]) != n:
+                return "iteration numbers out of sequence"
+            if len(am.e) == 0:
+                return "iteration %d runs although the map is empty at that moment: every remaining entry was deleted before it was reached" % n
+            if int(t[4]) != len(am.e):
+                return "len(m) at the start of iteration %d is %s, Go's map holds %d entries" % (n, t[4], len(am.e))
+            for op in (s["body"][n] if n < len(s["body"]) else []):
+                kk = s["pool"][op[1]]
+                if op[0] == "del":
+                    if am.find(kk) >= 0:
+                        deleted.append(kk)
+                    am.apply(["del", kk])
+                else:
+                    if am.find(kk) < 0:
+                        created += 1
+                    am.apply(["set", kk, op[2]])
+            n += 1
+        elif t[2] == "final":
+            finals.append((int(t[3]), int(t[4])))
+        elif t[2] == "len":
+            ln = int(t[3])
+    throughout = sum(1 for k in start if not any(G.go_eq(T, key, k, x) for x in deleted))
+    if n < throughout:
+        return "%d iterations, but %d entries were present from the start to the end of the loop" % (n, throughout)
+    if n > size0 + created:
+        return "%d iterations, but only %d entries existed at the start and %d were created" % (n, size0, created)
+    want = sorted((next(j for j, p in enumerate(s["pool"]) if G.go_eq(T, key, p, k)), v) for k, v in am.e)
+    if sorted(finals) != want or ln != len(want):
+        return "contents after the loop are %r (len %r), Go's map holds %r" % (sorted(finals), ln, want)
+    return None
+
+
 # ------------------------------------------------------------------ generation
 def dedupe_go_eq(T, key, pool):
     out = []
@@ -236,7 +317,24 @@ def gen_program(r, pidx, nh, nr):
                         else:
                             ops.append(["set", r.randrange(n), r.randint(10, 99)])
                     body.append([j, ops])
-            scen.append(dict(kind="range", key=key, pool=pool, init=init, body=body))
+            if r.random() < 0.4:
+                # a loop that binds no variable: the body is per iteration number and mostly deletes entries, so that
+                # entries disappear before the iterator reaches them
+                init = [[j, r.randint(1, 9)] for j in range(n) if r.random() < 0.85] or [[0, 1]]
+                ibody = []
+                for _ in range(r.randint(1, n + 1)):
+                    ops = []
+                    for _ in range(r.choice([0, 1, 2, 3, n])):
+                        if r.random() < 0.75:
+                            ops.append(["del", r.randrange(n)])
+                        else:
+                            ops.append(["set", r.randrange(n), r.randint(10, 99)])
+                    ibody.append(ops)
+                if r.random() < 0.25:
+                    ibody[0] = [["del", j] for j in range(n)]          # drain the map in the first iteration
+                scen.append(dict(kind="blind", key=key, pool=pool, init=init, body=ibody, form=r.choice(["none", "none", "blank", "blankkey"])))
+            else:
+                scen.append(dict(kind="range", key=key, pool=pool, init=init, body=body))
         else:
             n = len(pool)
             ops = []
@@ -272,6 +370,8 @@ def program_source(g, scen):
     for sid, s in enumerate(scen):
         if s["kind"] == "history":
             L.append(scenario_history(T, s["key"], s["pool"], s["ops"], s["nil"], sid))
+        elif s["kind"] == "blind":
+            L.append(scenario_range_blind(T, s["key"], s["pool"], s["init"], s["body"], s["form"], sid))
         else:
             L.append(scenario_range(T, s["key"], s["pool"], s["init"], s["body"], sid))
     L.append("func main() {")
@@ -449,7 +549,7 @@ def programs(ctx):
         for s in scen:
             floats |= set(P15._floats_in(s["pool"]))
     nts = node_strings(floats)
-    hterms, hmeta, rterms, rmeta = [], [], [], []
+    hterms, hmeta, rterms, rmeta, iterms, imeta = [], [], [], [], [], []
     dist = dict(history_scenarios=0, range_scenarios=0, range_visits=0, range_body_ops=0, native_go_disagreements=0, law_failures=0)
     for pi, ((g, scen, src), res) in enumerate(zip(progs, results[:nprog])):
         T = g.T
@@ -493,6 +593,34 @@ def programs(ctx):
                 rs = dict(tstr=tstr_model, nts=nts, ctr0=0, steps=steps_from_lines(s["ops"], jl))
                 hterms.append(P15.coq_hcase(c, rs, full=False))
                 hmeta.append((src, sid))
+            elif s["kind"] == "blind":
+                dist["blind_range_scenarios"] = dist.get("blind_range_scenarios", 0) + 1
+                jl, nl = js.get(sid, []), nat.get(sid, [])
+                iters = sum(1 for t in jl if t[2] == "iter")
+                dist["blind_range_iterations"] = dist.get("blind_range_iterations", 0) + iters
+                law = blind_law(T, key, s, jl)
+                if law:
+                    dist["law_failures"] += 1
+                    ctx.violation("range-no-variable-law-violated", "range over a map binding no variable (%s), body mutates the map: %s" % (s["form"], law),
+                                  dict(kind="program", source=src, scenario=sid, gopherjs=[" ".join(t) for t in jl][:60], native_go=[" ".join(t) for t in nl][:60]))
+                lawn = blind_law(T, key, s, nl)
+                if lawn:
+                    ctx.violation("spec-vs-native-go-mismatch", "the no-variable range law as written in the check does not hold on NATIVE Go's trace: " + lawn,
+                                  dict(kind="program", source=src, scenario=sid, native_go=[" ".join(t) for t in nl][:60]), concrete=False)
+                pool = P15.Pool(T, key)
+                for v in s["pool"]:
+                    pool.of(v)
+                tstr = [G.S(x) for x in tstr_model]
+                fin = [(int(t[3]), int(t[4])) for t in jl if t[2] == "final"]
+                if any(j < 0 for j, _ in fin):
+                    continue
+                pj = lambda j: pool.of(s["pool"][j])
+                iterms.append("{| i_t := %s; i_nts := %s; i_pool := [%s]; i_init := [%s];\n i_body := [%s];\n i_iters := %d; i_final := [%s] |}" % (
+                    T.shape(key), G.cnts(nts), "; ".join(G.cval(T, key, v, tstr) for v in pool.reps),
+                    "; ".join("(%d, %s)" % (pj(k), G.cz(v)) for k, v in s["init"]),
+                    "; ".join("[%s]" % "; ".join(("ISet %d %s" % (pj(o[1]), G.cz(o[2]))) if o[0] == "set" else "IDel %d" % pj(o[1]) for o in ops) for ops in s["body"]),
+                    iters, "; ".join("(%d, %s)" % (pj(j), G.cz(v)) for j, v in fin)))
+                imeta.append((src, sid, jl))
             else:
                 dist["range_scenarios"] += 1
                 jl, nl = js.get(sid, []), nat.get(sid, [])
@@ -525,7 +653,12 @@ def programs(ctx):
                 rmeta.append((src, sid, jl))
     bad, errs = P15.coq_mismatches(ctx, hterms, "hcase", "mismatches_h", "ph", shard=60)
     bad2, errs2 = P15.coq_mismatches(ctx, rterms, "rcase", "mismatches_r", "pr", shard=60)
-    for k, err in errs + errs2:
+    bad3, errs3 = P15.coq_mismatches(ctx, iterms, "icase", "mismatches_i", "pi", shard=60)
+    for j in bad3:
+        ctx.violation("range-no-variable-model-mismatch", "model and compiled program disagree on the number of iterations / final contents of a range loop that binds no variable",
+                      dict(kind="program", source=imeta[j][0], scenario=imeta[j][1], gopherjs=[" ".join(t) for t in imeta[j][2]][:60],
+                           correspondence="Corr/C15_Eval.mismatches_i vs compiled program"), concrete=False)
+    for k, err in errs + errs2 + errs3:
         ctx.violation("model-eval-failed", "Coq evaluation of the model failed (programs)", dict(shard=k, log=err), concrete=False)
     for j in bad:
         ctx.violation("program-history-model-mismatch", "model and compiled program disagree on a history",
@@ -534,7 +667,7 @@ def programs(ctx):
         ctx.violation("range-loop-model-mismatch", "model and compiled program disagree on the visiting order / final contents of a range loop",
                       dict(kind="program", source=rmeta[j][0], scenario=rmeta[j][1], gopherjs=[" ".join(t) for t in rmeta[j][2]][:60],
                            correspondence="Corr/C15_Eval.mismatches_r vs compiled program"), concrete=False)
-    dist["model_mismatches"] = len(bad) + len(bad2)
+    dist["model_mismatches"] = len(bad) + len(bad2) + len(bad3)
     ctx.cov["program_distribution"] = dist
     ctx.cov["programs"] = nprog
 
